@@ -566,6 +566,9 @@ func (t *Tree) RerootMidPoint() error {
 			potentialedges = edges
 		}
 	}
+	if len(potentialedges) == 0 {
+		return errors.New("cannot reroot at midpoint: no path of positive length between tips")
+	}
 	// Path potentialedges starts from tip 1:
 	// potentialedges[0].Right()
 	// And ends at tip 2:
